@@ -9,23 +9,23 @@ CHECKS = {
             'style/format configurations are expanded by the real code and compared event-by-event with a reference denotation; '
             'a composition sweep chains corpora to reach larger trees.'),
     'C02': ('explicit enumeration of numbering templates x numbering forms x sites x maxRepeat on emmet.expand vs reference unroller',
-            '4.C02', 'Exhaustive over all nesting templates of repeated elements/groups up to the unit bound, 18 numbering forms at 6 sites and all limits.'),
+            '4.C02', 'Exhaustive over all nesting templates of repeated elements/groups up to the unit bound, 24 numbering forms at 8 sites (element, class, attribute name / value / quoted value / expression value, id, text) and all limits; a JSX pass.'),
     'C03': ('explicit enumeration of attribute-mention sequences x option lattice (<=2 deviations) x syntaxes vs reference merge; payload typing tree',
-            '4.C03', 'Exhaustive over mention sequences up to length k and option sets up to 2 deviations; payload alphabet up to the unit bound.'),
+            '4.C03', 'Exhaustive over mention sequences up to length k and option sets up to 2 deviations, also inside repeaters, on a multi-element alias and on a label that wraps a control; payload alphabet up to the unit bound.'),
     'C04': ('typing-tree enumeration of text payloads x host positions and of wrap-line lists x templates on emmet.expand, closed-form oracle',
             '4.C04', 'Exhaustive over payloads up to the unit bound in every host and over all line lists up to the bound.'),
     'C05': ('explicit enumeration of stylesheet value sequences x option lattice x syntaxes vs reference rendering (colors compared by value)',
-            '4.C05', 'Exhaustive over all 1/2/3-digit hex colors, channel-sweeps of 6-digit colors, number/unit products and value sequences up to the bound.'),
+            '4.C05', 'Exhaustive over all 1/2/3-digit hex colors, channel-sweeps of 6-digit colors, number/unit products and value sequences up to the bound; every joined batch goes through a cache primed under wholly different options.'),
     'C06': ('complete enumeration of the built-in stylesheet snippet table x syntaxes x keyword/case forms x scopes x user overrides',
-            '4.C06', 'The snippet table is finite and enumerated completely.'),
+            '4.C06', 'The snippet table is finite and enumerated completely (names split from the raw table by the harness); user-defined snippets of several shapes through the call config, the global config and a primed cache.'),
     'C07': ('typing-tree + edit-neighbourhood enumeration of input strings x configuration list on emmet.expand with exception classifier and watchdog',
             '4.C07', 'All strings up to the stated lengths over a class-representative alphabet under every listed configuration.'),
     'C08': ('explicit-state BFS over expand() call histories on shared caller objects with canonical-state deduplication, differential vs fresh interpreter',
-            '4.C08', 'Breadth-first search over call histories from a finite operation menu, closed under state equality up to the depth bound.'),
+            '4.C08', 'Breadth-first search over call histories from a finite operation menu (incl. self-checking sequences in which the caller edits its own objects in place), closed under state equality up to the depth bound.'),
     'C09': ('explicit enumeration of HTML document forests x every caret position vs generator ground truth',
-            '4.C09', 'All forests up to the node bound over the node-kind menu, every position.'),
+            '4.C09', 'All forests up to the node bound over the node-kind menu, every position; body variants of the non-markup sections; checked calls preceded by calls on ill-formed documents and on a same-length document with other attribute text.'),
     'C10': ('explicit enumeration of CSS rule/declaration forests x layouts x every caret position vs generator ground truth',
-            '4.C10', 'All forests up to the node bound, three layouts, every position.'),
+            '4.C10', 'All forests up to the node bound, five layouts, every position; all ordered pairs of small rule trees; checked calls preceded by calls on ill-formed text.'),
     'C11': ('typing-tree enumeration of lines x positions x options (consistency) and of embedded abbreviations x contexts (round trip) on extract()',
             '4.C11', 'All lines up to the length bound with every position/option combination; all generated abbreviations in all contexts.'),
     'C12': ('explicit enumeration of abbreviations x formatting-option lattice (<=2 deviations) x syntaxes, differential vs unformatted baseline + indentation oracle',
@@ -33,7 +33,7 @@ CHECKS = {
     'C13': ('explicit enumeration of abbreviations x syntaxes x newline/indent/baseIndent product with recording callbacks, positional oracle',
             '4.C13', 'Every callback invocation of every explored run is checked against the final string.'),
     'C14': ('complete enumeration of built-in markup snippet tables x contexts (alias vs definition) + all user tables over a small name/definition menu with frame-depth probe',
-            '4.C14', 'Built-in tables enumerated completely; user tables (cyclic included) exhaustively over the menu.'),
+            '4.C14', 'Built-in tables enumerated completely (every name of every raw key); user tables (cyclic included) exhaustively over the menu, with context independence and an in-place edit of the table.'),
     'C15': ('explicit enumeration of abbreviations x haml/pug/slim x indent strings vs reference tree and HTML-output tree',
             '4.C15', 'Exhaustive over derivations up to the element bound.'),
     'C16': ('typing-tree + edit-neighbourhood enumeration of source strings x every position (incl. out of range) on all scanner/matcher entry points, range well-formedness oracle',
@@ -45,7 +45,7 @@ CHECKS = {
     'C19': ('typing-tree enumeration of expression token/character strings on evaluate()/extract() vs AST + exact-rational reference',
             '4.C19', 'All token strings up to the bound, all character strings up to the bound, all extract positions/options.'),
     'C20': ('complete enumeration of the configuration layer lattice (type x syntax x kind x key x layer subsets) vs reference fold, also through expand',
-            '4.C20', 'The lattice is finite and enumerated completely in both tiers.'),
+            '4.C20', 'The lattice is finite and enumerated completely in both tiers; every transition is also executed on the live dicts (layer added in place), every state is preceded by a resolution under the other type and expanded through a shared cache.'),
 }
 
 NOTE = ('Trusted base: CPython 3.12 (/venv), the enumerators in mc/explore.py and mc/ref/* (self-tested), the reference models and independent '
